@@ -246,7 +246,16 @@ fn query_archetype_identifiers_unchecked<
             (*world.get()).query_archetype_claims::<T::Views, T::Filter, Or<And<T::Views, T::Filter>, T::EntryViewsFilter>, T::EntryViews, QueryIndices, Or<And<R::ViewsFilterIndices, R::FilterIndices>, EntryViewsFilterIndices>, EntryIndices>()
         }
     {
-        borrowed_archetypes.insert_unique_unchecked(identifier, claims);
+        match borrowed_archetypes.entry(identifier) {
+            hash_map::Entry::Occupied(mut entry) => {
+                // SAFETY: Tasks within the same stage are guaranteed to have compatible claims.
+                let merged_claims = unsafe { claims.merge_unchecked(entry.get()) };
+                entry.insert(merged_claims);
+            }
+            hash_map::Entry::Vacant(entry) => {
+                entry.insert(claims);
+            }
+        }
     }
 }
 
